@@ -24,6 +24,11 @@ LOG = []
 def c1(fn):
     LOG.append(("c1", fn.__module__))
     return beartype(fn)
+'''
+SPY2 = '''
+from beartype import beartype
+import B          # this typechecker's package uses a module of the project
+LOG = []
 def c2(fn):
     LOG.append(("c2", fn.__module__))
     return beartype(fn)
@@ -44,6 +49,7 @@ def replay(args):
     root = tempfile.mkdtemp(prefix="verif_c18_")
     try:
         open(os.path.join(root, "verif_spy.py"), "w").write(SPY)
+        open(os.path.join(root, "verif_spy2.py"), "w").write(SPY2)
         ver = {m: 0 for m in mods}
         t = 1_600_000_000
         for m in mods:
@@ -59,9 +65,10 @@ def replay(args):
                 write_module(root, r["mod"], ver[r["mod"]], mods, t)
                 continue
             cfg = {"root": root, "hooked": sorted(r["hooked"]), "checker": r["checker"], "order": r["order"], "modules": mods,
-                   "nowrite": r["nowrite"]}
+                   "nowrite": r["nowrite"], "disabled": r["disabled"]}
+            env_r = dict(env, JAXTYPING_DISABLE="1") if r["disabled"] else env
             p = subprocess.run([PY, os.path.join(VERIF, "harness", "cache_child.py"), json.dumps(cfg)], capture_output=True,
-                               text=True, env=env, timeout=300)
+                               text=True, env=env_r, timeout=300)
             line = [l for l in p.stdout.splitlines() if l.startswith("RESULT ")]
             if not line:
                 got.append({"error": (p.stderr or p.stdout)[-400:]})
@@ -80,7 +87,7 @@ def replay(args):
 def histories(chk, mods, imports, runs, edits, tag, simulate=6000):
     cfg = os.path.join(chk.workdir, f"hc_emit_{tag}.cfg")
     consts = {"Modules": set(mods), "Imports": tlc.Sub(imports), "Checkers": {"c1", "c2"}, "PatchScope": "get_code",
-              "MaxRuns": runs, "MaxEdits": edits}
+              "MaxRuns": runs, "MaxEdits": edits, "CheckerImports": tlc.Sub("CkImpB")}
     tlc.write_cfg(cfg, spec="Spec", constants=consts, constraints=["Emit"])
     # the histories are sampled by TLC's simulator (the exhaustive set has millions of members)
     res = tlc.run("JtHookCache", cfg, chk.workdir, workers=1, heap="4g", timeout=1800,
@@ -102,12 +109,13 @@ def main(tier):
     try:
         wd = chk.workdir
         for scope, expect in (("get_code", None), ("exec_module", "is violated"), ("leak_on_error", "is violated"),
-                              ("skip_when_nowrite", "is violated")):
+                              ("skip_when_nowrite", "is violated"), ("compile_window", "is violated"),
+                              ("skip_when_disabled", "is violated")):
             cfg = os.path.join(wd, f"hc_{scope}.cfg")
             tlc.write_cfg(cfg, spec="Spec", view="View", invariants=["Fresh", "CacheTagged"],
                           constants={"Modules": {"A", "B", "C"} if (not expect and tier == "thorough") else {"A", "B"},
                                      "Imports": tlc.Sub("ImportsABC" if (not expect and tier == "thorough") else "ImportsAB"),
-                                     "Checkers": {"c1", "c2"}, "PatchScope": scope,
+                                     "Checkers": {"c1", "c2"}, "PatchScope": scope, "CheckerImports": tlc.Sub("CkImpB"),
                                      "MaxRuns": 3 if (not expect and tier == "thorough") else 2, "MaxEdits": 1})
             rh = tlc.run("JtHookCache", cfg, wd, heap="8g", timeout=1800, args=["-coverage", "1"])
             chk.add_tlc(f"JtHookCache[{scope}]" + (" (must be refuted)" if expect else ""), rh, expect_violation=expect)
@@ -120,7 +128,7 @@ def main(tier):
         def interesting(h):
             rs = [r for r in h if r["kind"] == "run"]
             return len(rs) == 2 and (sorted(rs[0]["hooked"]) != sorted(rs[1]["hooked"]) or rs[0]["checker"] != rs[1]["checker"]
-                                      or any(r["kind"] == "edit" for r in h)) and not rs[0]["nowrite"]
+                                      or rs[0]["disabled"] != rs[1]["disabled"] or any(r["kind"] == "edit" for r in h)) and not rs[0]["nowrite"]
         pool = [h for h in h2 if interesting(h)]
         # half of the sample: histories that import the broken module or run without writing bytecode
         special = [h for h in pool if any(r["kind"] == "run" and (r["nowrite"] or "X" in r["order"]) for r in h)]
